@@ -57,3 +57,5 @@ def run(ctx, R):
     jit.rule_lw_sib(ctx, R, 'a64', F)
     jit.rule_lw_sib(ctx, R, 'rv64', F)
     rule_rcp_pure(ctx, R)
+    jit.rule_rcp(ctx, R, 'rvv')
+    jit.rule_lw_sib(ctx, R, 'rvv', F)
